@@ -52,6 +52,26 @@ def generate(rng, tier):
             if len(ids) == 4:
                 for rate in (1, 2, 3):
                     cases.append(G.mk(ids, behs, rate=rate, timeout=1, keep=(rate == 1)))
+    # what the comparator returns is the user's: every shape of verdict (status or a value that is none; message none /
+    # text / structured; diff; subclass instance; bare foreign value).  Deterministic probe: each representative shape
+    # between two ordinary recordings, both modes x keep-results, at a recycle boundary ...
+    probes = ["cr:Different:text:1:plain", "cr:Failed:text:1:sub", "cr:Equal:none:1:plain", "cr:Fixed:text:0:sub",
+              "cr:Different:struct:0:plain", "cr:Different:struct:1:sub", "cr:Failed:num:0:plain",
+              "cr:Equal:falsy:1:plain", "cr:EqualizerFailure:text:1:plain", "cr:EqualizerFailure:struct:0:plain",
+              "cr:none:none:0:plain", "cr:true:text:1:plain", "cr:name:none:0:plain",
+              "foreign:none", "foreign:true", "foreign:name"]
+    for k, b in enumerate(probes):
+        for dedicated in (True, False):
+            for keep in (False, True):
+                cases.append(G.mk([1, 2, 3], ["equal", b, "different"], dedicated=dedicated, rate=1 + (k + keep) % 2,
+                                  timeout=2, keep=keep, probe="verdict-shapes"))
+    # ... and shapes mixed with everything else in random scripts
+    shapes_w = [0.6] * len(G.SHAPE_BEH)
+    for _ in range(70 if tier == "quick" else 900):
+        ids, behs = G.rand_script(rng, MAIN + G.SHAPE_BEH, W_MAIN + shapes_w, 10)
+        cases.append(G.mk(ids, behs, dedicated=rng.random() < 0.7, rate=rng.choice([1, 2, 2, 3, 5, 0]),
+                          timeout=rng.choice([1, 2, 2, 3]), keep=rng.random() < 0.5,
+                          consume=G.rand_consume(rng, len(ids)), probe="verdict-shapes"))
     # probe streams for the known finding F08 (untagged queues): late answers and stale tasks
     n_probe = 30 if tier == "quick" else 400
     for k in range(n_probe):
@@ -115,6 +135,13 @@ def direct(case, obs):
         if ded or not any(proc_fault[:len(cmps) + 1]):
             fails.append(("run-aborted", "run ended with %s after %d verdicts" % (out, len(cmps))))
         want = want[:len(cmps)]      # in-process: a replay that exits / hangs the interpreter takes the run with it
+    elif out.startswith("escaped"):
+        k = len(cmps)
+        fails.append(("run-aborted", "an exception left run_comparison (%s: %s) while r%s (%s) was compared: it and the "
+                      "%d recording(s) after it got no comparison"
+                      % (out[8:], obs.get("why"), want[k] if k < len(want) else "?",
+                         G.beh_of(case, want[k]) if k < len(want) else "?", max(0, len(want) - k - 1))))
+        want = want[:len(cmps)]
     if labels != want:
         if len(labels) == len(want) and sorted(map(str, labels)) != sorted(map(str, want)):
             fails.append(("wrong-label", "labels %s for ids %s" % (labels, want)))
@@ -133,12 +160,19 @@ def direct(case, obs):
             fails.append((sig("verdict-differs-from-alone"),
                           "comparison #%d of r%s (%s) is %s but played alone it is %s" % (k, i, b, c, alone[0][0])))
         exp = G.expected_status(b, ded, T)
-        if exp is not None and c[1] != exp:
+        if not G.status_ok(exp, c[1]):
             fails.append((sig("wrong-status"), "comparison #%d of r%s (%s): status %s, expected %s" % (k, i, b, c[1], exp)))
+        if c[0] == i:
+            fails += [(sig(sg), "comparison #%d: %s" % (k, m)) for sg, m in G.payload_fails(b, c)]
     # in-process and dedicated-process execution give the same verdicts
     neutral = all(G.mode_neutral(G.beh_of(case, i), T) for i in ids)
+    # (the WHOLE comparison: label, status, message kind, diff, class of the verdict, attached replay, expected/actual)
     if neutral and case.get("consume", ["full"])[0] == "full" and obs["other_mode"][0] != cmps:
-        fails.append(("modes-disagree", "dedicated and in-process runs differ: %s vs %s" % (cmps, obs["other_mode"][0])))
+        other = obs["other_mode"][0]
+        where = [k for k in range(min(len(cmps), len(other))) if cmps[k] != other[k]][:1]
+        fails.append(("modes-disagree", "%s and %s runs differ%s: %s vs %s"
+                      % ("dedicated" if ded else "in-process", "in-process" if ded else "dedicated",
+                         " at comparison #%d" % where[0] if where else " in length", cmps, other)))
     return fails
 
 
